@@ -144,13 +144,9 @@ class NVSubroutineTranspiler(SubroutineTranspiler):
                     # OK, value is a known Immediate. Update register value:
                     self._register_values[reg] = instr.imm
                 else:
-                    pass
-                    # don't allow writing to a Q-register by any other instruction type
-                    # TODO
-                    # raise RuntimeError(
-                    #     f"Cannot transpile: the instruction {instr} writes to"
-                    #     " a Q-register but the value cannot be determined"
-                    #     " at transpile time.")
+                    # The value cannot be determined at transpile time, so the
+                    # previously known value (if any) is no longer valid.
+                    self._register_values.pop(reg, None)
 
             for op in instr.operands:
                 # update used registers
